@@ -4,8 +4,9 @@
 
 typedef std::vector<unsigned char> valtype;
 
+// an exception that nothing below handles (e.g. an inline function such as int() / jacobi() given data it cannot convert) is an input error, not a reason to abort
 int main(int argc, const char** argv)
-{
+try {
     if (argc < 2) {
         printf("syntax: %s <program>\n", argv[0]);
         printf("e.g. %s OP_DUP OP_HASH160 '[62e907b15cbf27d5425399ebf6f0fb50ebb88f18]' OP_EQUALVERIFY OP_CHECKSIG\n", argv[0]);
@@ -13,4 +14,7 @@ int main(int argc, const char** argv)
     }
     std::vector<Value> result = Value::parse_args(argc, argv, 1);
     fprintf(stdout, "%s\n", Value::serialize(result).c_str());
+} catch (const std::exception& ex) {
+    fprintf(stderr, "error: %s\n", ex.what());
+    return 1;
 }
